@@ -16,9 +16,10 @@ CONSTANTS
   DelHi = {8}
   MaxPend = 2
   AllowKF = {"KF-C01-2"}
-  KFInitOpts = TRUE
-  KFV1Hist = TRUE
+  KFInitOpts = FALSE
+  KFV1Hist = FALSE
   MaxOps = 8
+  PreT = {}
   Balanced = FALSE
   EmitMode = "class"
 VIEW View
